@@ -5,7 +5,7 @@ From Coq Require Import String.
 From Coq Require Import List ZArith Strings.Byte Bool.
 From Verif Require Import Base.Wire Schema.Regex Schema.Schema Schema.Validate Schema.ValidateProofs
   Marshal.Typed Marshal.Env Schema.Shape Schema.ShapeProofs Schema.ShapeShipped Schema.ShapeShippedProofs
-  Schema.Skeleton Schema.SkeletonProofs Gen.GoTypes Gen.Schemas.
+  Schema.Skeleton Schema.SkeletonProofs Schema.SkeletonWrittenProofs Gen.GoTypes Gen.Schemas.
 Import ListNotations.
 
 (* the skeletonised environment is what publishing the skeletonised files would give *)
@@ -46,6 +46,32 @@ Proof.
   eapply written_documents_shaped_strict_partial; eauto.
 Qed.
 
+(* the same without assuming that the written tree reads as a JSON value: it does whenever the tree that was
+   given does (SkeletonWrittenProofs.reenc_readable) *)
+Lemma written_documents_read_and_validated_by_skeleton_partial id j v :
+  ~ In id shape_unchecked -> readable j = true ->
+  reenc_schema id j = Ok v -> v <> Typed.TNull -> null_clean false v = true ->
+  exists d, to_json v = Some d /\
+            exists n, forall m, (n <= m)%nat -> validate_id (skeleton_env shipped_env) m id d = Some true.
+Proof.
+  intros N Rj R Nv C. assert (R' := R). unfold reenc_schema in R'.
+  destruct (assoc id go_schemas) as [t|]; [|discriminate].
+  destruct (reenc_readable _ _ _ _ _ Rj R') as (d & J). exists d. split; auto.
+  eapply written_documents_validated_by_skeleton_partial; eauto.
+Qed.
+
+Lemma written_documents_read_and_validated_by_skeleton_strict_partial id j v :
+  ~ In id (shape_unchecked ++ shape_null_members) -> readable j = true ->
+  reenc_schema id j = Ok v -> v <> Typed.TNull -> null_clean true v = true ->
+  exists d, to_json v = Some d /\
+            exists n, forall m, (n <= m)%nat -> validate_id (skeleton_env shipped_env) m id d = Some true.
+Proof.
+  intros N Rj R Nv C. assert (R' := R). unfold reenc_schema in R'.
+  destruct (assoc id go_schemas) as [t|]; [|discriminate].
+  destruct (reenc_readable _ _ _ _ _ Rj R') as (d & J). exists d. split; auto.
+  eapply written_documents_validated_by_skeleton_strict_partial; eauto.
+Qed.
+
 (* non-vacuity, on note.Message (ShapeShipped.msg_in / msg_out):
    the written tree reads as a JSON value, the skeleton accepts it and so does the published schema;
    the skeleton is WEAKER than the published schema: a message without the required `content` passes it;
@@ -55,7 +81,7 @@ Lemma msg_skeleton_example :
   let d := JObj [(bs "title", JStr (bs "T")); (bs "content", JStr (bs "hello"));
                  (bs "meta", JObj [(bs "a", JStr (bs "1")); (bs "b", JStr (bs "2"))])] in
   let no_content := JObj [(bs "title", JStr (bs "T"))] in
-  reenc_schema msg_id msg_in = Ok msg_out /\ to_json msg_out = Some d /\
+  reenc_schema msg_id msg_in = Ok msg_out /\ readable msg_in = true /\ to_json msg_out = Some d /\
   validate_id (skeleton_env shipped_env) 20 msg_id d = Some true /\
   validate_id shipped_env 20 msg_id d = Some true /\
   validate_id (skeleton_env shipped_env) 20 msg_id no_content = Some true /\
